@@ -2,6 +2,7 @@
 // stdin: one JSON case per line {"k": "<kind>", ...}; stdout: one JSON result per line.
 // Floats cross the boundary as 16-hex-digit bit patterns.
 mod util;
+mod c01;
 mod c12;
 mod c14;
 mod c16;
@@ -17,6 +18,7 @@ fn dispatch(case: &Value) -> Value {
     let k = case["k"].as_str().unwrap_or("");
     let p = k.split('.').next().unwrap_or("");
     match p {
+        "c01" => c01::run(k, case),
         "c12" => c12::run(k, case),
         "c14" => c14::run(k, case),
         "c16" => c16::run(k, case),
